@@ -5,6 +5,7 @@ import (
 	"errors"
 	"fmt"
 	"net"
+	"reflect"
 	"runtime"
 	"sort"
 	"strconv"
@@ -13,10 +14,13 @@ import (
 	"sync/atomic"
 	"time"
 
+	"github.com/google/uuid"
 	"go.dedis.ch/kyber/v3"
 	"go.dedis.ch/kyber/v3/group/mod"
 	"go.dedis.ch/kyber/v3/suites"
+	"go.dedis.ch/kyber/v3/util/key"
 	"go.dedis.ch/onet/v3/network"
+	"go.dedis.ch/protobuf"
 	"onetverif/harness/fix"
 	"onetverif/harness/h"
 )
@@ -36,6 +40,234 @@ import (
 //   csend <buffers of thread 0>;<buffers of thread 1>;...
 //       the threads call the real TCPConn.Send concurrently on one connection whose transport takes
 //       every write in two steps
+
+//   unenc <type ids>      registered types whose values the protobuf encoder refuses (c03Unenc)
+//   procs <type ids|all>  the types the pipe router of `loop` and the router of `self` have a processor for
+//   reg <name> <identity> network.RegisterMessage of the harness type with that identity, whose
+//                         reflect.Type.String() must be <name>: the id it returns
+//   mtype <name> <identity>   network.MessageType
+//   rt <name> <identity> <protobuf body>   Marshal of such a value, then Unmarshal: "ok type=<identity>"
+//   self <buffers>        Router.Send of these values to the router's own identity
+//   sendnil <tcp|local>   Router.Send of a valid message followed by a nil one
+
+// c03Unenc is registered, but the protobuf encoder refuses its values (a channel).
+type c03Unenc struct{ C chan int }
+
+// c03NoProc is registered; the routers of the harness have a processor for it only when told so.
+var c03unencType = network.RegisterMessage(&c03Unenc{})
+
+// Go types by identity, for the registry operations.  Identities 0-2 are three *distinct* types
+// declared inside functions: reflect.Type.String() is "main.c03Clash" for all of them.
+func c03clashA() interface{} {
+	type c03Clash struct {
+		X int32
+		B []byte
+	}
+	return &c03Clash{}
+}
+
+func c03clashB() interface{} {
+	type c03Clash struct {
+		N int64
+		S string
+	}
+	return &c03Clash{}
+}
+
+func c03clashC() interface{} {
+	type c03Clash struct {
+		F float64
+	}
+	return &c03Clash{}
+}
+
+type c03Lone struct {
+	N int64
+	S string
+}
+
+var c03goTypes = map[int]func() interface{}{
+	0: c03clashA, 1: c03clashB, 2: c03clashC,
+	3:  func() interface{} { return &c03Lone{} },
+	10: func() interface{} { return &c03Inner{} },
+	11: func() interface{} { return &c03Nested{} },
+	12: func() interface{} { return &c03Ints{} },
+	13: func() interface{} { return &c03Bytes{} },
+	14: func() interface{} { return &c03Points{} },
+	15: func() interface{} { return &c03Unenc{} },
+	16: func() interface{} { return &c03Iface{} },
+}
+
+func c03typeName(v interface{}) string { return reflect.TypeOf(v).Elem().String() }
+
+// c03goType returns a fresh value of the harness type with that identity, provided its name is the
+// one the operation states.
+func c03goType(nameHex, uid string) (interface{}, bool) {
+	name, ok := c03unhex(nameHex)
+	id, err := strconv.Atoi(uid)
+	if !ok || err != nil || c03goTypes[id] == nil {
+		return nil, false
+	}
+	v := c03goTypes[id]()
+	return v, c03typeName(v) == string(name)
+}
+
+func c03uidOf(v interface{}) int {
+	for id, mk := range c03goTypes {
+		if reflect.TypeOf(mk()) == reflect.TypeOf(v) {
+			return id
+		}
+	}
+	return -1
+}
+
+func (st *c03state) rt(v interface{}, uid string, body []byte) string {
+	if len(body) > 0 {
+		if err := protobuf.Decode(body, v); err != nil {
+			return "bad-op"
+		}
+	}
+	buf, err := network.Marshal(v)
+	if err != nil {
+		st.tag("rt:err:marshal")
+		return "err:marshal"
+	}
+	got, class := c03unmarshal(buf)
+	if class != "ok" {
+		st.tag("rt:err:" + class)
+		if class == "panic" {
+			st.cs.Fail("unmarshal-panic", "Unmarshal panicked on "+h.Hex(buf))
+		} else {
+			st.cs.Fail(st.clashSig(v, nil), fmt.Sprintf("a value of the registered type %T (identity %s) was marshalled to %s and does not come back: %s", v, uid, h.Hex(buf), class))
+		}
+		return "err:" + class
+	}
+	// the property's own oracle: an equal value of the same type
+	if reflect.TypeOf(got) != reflect.TypeOf(v) {
+		st.cs.Fail(st.clashSig(v, got), fmt.Sprintf("a value of the registered type %s (identity %s) arrived as a value of another Go type with identity %d (%s): %+v", c03typeName(v), uid, c03uidOf(got), c03typeName(got), got))
+	} else if b2, err := network.Marshal(got); err != nil || !bytes.Equal(b2, buf) {
+		st.cs.Fail("delivered-value-differs", "Marshal(Unmarshal(Marshal(v))) differs from Marshal(v) = "+h.Hex(buf))
+	}
+	st.tag(fmt.Sprintf("rt:ok:same=%v", reflect.TypeOf(got) == reflect.TypeOf(v)))
+	return fmt.Sprintf("ok type=%d", c03uidOf(got))
+}
+
+// clashSig: the known finding is exactly "another registered type has the same reflect.Type.String()".
+func (st *c03state) clashSig(sent, got interface{}) string {
+	for id, mk := range c03goTypes {
+		o := mk()
+		if reflect.TypeOf(o) != reflect.TypeOf(sent) && c03typeName(o) == c03typeName(sent) && st.registered[id] {
+			return "type-name-clash"
+		}
+	}
+	if got == nil {
+		return "registered-value-lost"
+	}
+	return "wrong-type"
+}
+
+func (st *c03state) self(bufs [][]byte) string {
+	lm := network.NewLocalManager()
+	kp := key.NewKeyPair(fix.Suite)
+	sid := network.NewServerIdentity(kp.Public, network.NewLocalAddress("127.0.0.1:2100"))
+	r, err := network.NewLocalRouterWithManager(lm, sid, fix.Suite)
+	if err != nil {
+		st.cs.Fail("harness", err.Error())
+		return "harness-error"
+	}
+	r.Quiet = true
+	var got []*network.Envelope
+	for _, t := range append(append([]network.MessageTypeID{}, c03types...), c03unencType, c03ifaceType) {
+		if st.procs != nil && !st.procs[t] {
+			continue
+		}
+		r.RegisterProcessorFunc(t, func(e *network.Envelope) error {
+			got = append(got, e)
+			return nil
+		})
+	}
+	var vals []network.Message
+	for _, b := range bufs {
+		if len(b) >= 16 && bytes.Equal(b[:16], c03unencType[:]) {
+			vals = append(vals, &c03Unenc{C: make(chan int)})
+			continue
+		}
+		v, cl := c03unmarshal(b)
+		switch cl {
+		case "ok":
+			vals = append(vals, v)
+		case "unknown":
+			vals = append(vals, &c03Unreg{X: 1})
+		default:
+			return "bad-op"
+		}
+	}
+	_, serr := r.Send(sid, vals...)
+	res := "ok"
+	if serr != nil {
+		res = "err"
+	}
+	var ev []string
+	for i, e := range got {
+		hx := c03hexOf(e.Msg)
+		if _, ok := e.Msg.(*c03Unenc); ok {
+			hx = h.Hex(c03unencType[:])
+		}
+		ev = append(ev, "d:"+h.Hex(e.MsgType[:])+":"+hx)
+		// the property's own oracle: the very values sent, in order, under the id of their type, from
+		// the router itself
+		if i >= len(vals) || e.Msg != vals[i] || e.MsgType != network.MessageType(e.Msg) || e.ServerIdentity != sid {
+			st.cs.Fail("self-send", fmt.Sprintf("delivery %d of a send to the router's own identity: MsgType %x, Msg %+v, ServerIdentity %v", i, e.MsgType[:], e.Msg, e.ServerIdentity))
+		}
+	}
+	if serr == nil && len(got) != len(vals) {
+		st.cs.Fail("message-lost", fmt.Sprintf("Send to the router's own identity returned nil for %d messages, %d were dispatched", len(vals), len(got)))
+	}
+	st.tag(fmt.Sprintf("self:%s:d%s", res, c03bucket(len(got))))
+	if len(ev) == 0 {
+		return res + " -"
+	}
+	return res + " " + strings.Join(ev, ",")
+}
+
+func (st *c03state) sendnil(tr string) string {
+	if tr != "tcp" && tr != "local" {
+		return "bad-op"
+	}
+	l := st.links[tr]
+	if l == nil {
+		var err error
+		if l, err = c03newLink(tr == "tcp"); err != nil {
+			st.cs.Fail("harness", err.Error())
+			return "harness-error"
+		}
+		st.links[tr] = l
+	}
+	before := l.deliveries()
+	_, err := l.r1.Send(l.to, &c03Ints{I64: 77}, nil)
+	res := "ok"
+	if err != nil {
+		res = "err:other"
+		if strings.Contains(err.Error(), "nil-packets") {
+			res = "err:nil"
+		}
+	}
+	time.Sleep(20 * time.Millisecond)
+	n := l.deliveries() - before
+	l.mu.Lock()
+	for len(l.seen) < len(l.got) {
+		l.seen = append(l.seen, "")
+	}
+	l.mu.Unlock()
+	if res == "ok" {
+		st.cs.Fail("send-error", "Send of a nil message returned no error")
+	}
+	st.tag("sendnil:" + res)
+	if n == 0 {
+		return res + " -"
+	}
+	return fmt.Sprintf("%s deliveries=%d", res, n)
+}
 
 // c03Iface carries interface-typed fields: which dynamic type instantiates them on the receiving
 // side depends on the tag registry of the encoding library and on the suite of the connection.
@@ -539,6 +771,83 @@ func (st *c03state) r4op(tk []string) (string, bool) {
 			return "bad-op", true
 		}
 		return st.wsend(bufs, acts, ch), true
+	case len(tk) == 3 && tk[1] == "unenc":
+		ids, ok := c03hexList(tk[2])
+		if !ok {
+			return "bad-op", true
+		}
+		for _, id := range ids {
+			if !bytes.Equal(id, c03unencType[:]) {
+				st.cs.Fail("harness", "the only type the encoder refuses is c03Unenc")
+			}
+		}
+		return "ok", true
+	case len(tk) == 3 && tk[1] == "procs":
+		if tk[2] == "all" {
+			st.procs = nil
+		} else {
+			ids, ok := c03hexList(tk[2])
+			if !ok {
+				return "bad-op", true
+			}
+			st.procs = map[network.MessageTypeID]bool{}
+			for _, id := range ids {
+				var t network.MessageTypeID
+				if len(id) != 16 {
+					return "bad-op", true
+				}
+				copy(t[:], id)
+				st.procs[t] = true
+			}
+		}
+		// the pipe router is rebuilt with these processors
+		if st.router != nil {
+			done := make(chan bool)
+			go func() { st.router.Stop(); close(done) }()
+			select {
+			case <-done:
+			case <-time.After(3 * time.Second):
+			}
+			st.router = nil
+		}
+		return "ok", true
+	case len(tk) == 4 && (tk[1] == "reg" || tk[1] == "mtype"):
+		v, ok := c03goType(tk[2], tk[3])
+		if !ok {
+			return "bad-op", true
+		}
+		if tk[1] == "reg" {
+			id := network.RegisterMessage(v)
+			if st.registered == nil {
+				st.registered = map[int]bool{}
+			}
+			n, _ := strconv.Atoi(tk[3])
+			st.registered[n] = true
+			st.tag("reg")
+			return h.Hex(id[:]), true
+		}
+		id := network.MessageType(v)
+		if id == network.ErrorType {
+			st.tag("mtype:unregistered")
+			return "unregistered", true
+		}
+		st.tag("mtype:registered")
+		return h.Hex(id[:]), true
+	case len(tk) == 5 && tk[1] == "rt":
+		v, ok := c03goType(tk[2], tk[3])
+		body, ok2 := c03unhex(tk[4])
+		if !ok || !ok2 {
+			return "bad-op", true
+		}
+		return st.rt(v, tk[3], body), true
+	case len(tk) == 3 && tk[1] == "self":
+		bufs, ok := c03hexList(tk[2])
+		if !ok {
+			return "bad-op", true
+		}
+		return st.self(bufs), true
+	case len(tk) == 3 && tk[1] == "sendnil":
+		return st.sendnil(tk[2]), true
 	case len(tk) == 3 && tk[1] == "csend":
 		var qs [][][]byte
 		for _, q := range strings.Split(tk[2], ";") {
@@ -595,6 +904,162 @@ func c03genR4(g *c03g, emit func(class string, ops ...string)) {
 		"c03 cfg 4096 "+reg+" -",
 		ifaceOp("unm", "P256", "P256", "scalar"),
 		ifaceOp("tcp", "Residue512", "Residue512", "scalar"))
+	// ---- the type registry: RegisterMessage / MessageType / Marshal / Unmarshal over Go types with
+	// unique and with clashing names
+	hexName := func(uid int) string { return h.Hex([]byte(c03typeName(c03goTypes[uid]()))) }
+	typeID := func(uid int) []byte {
+		u := uuid.NewSHA1(uuid.NameSpaceURL, []byte(network.NamespaceBodyType+c03typeName(c03goTypes[uid]())))
+		return u[:]
+	}
+	// a protobuf body for a value of the harness type `uid`
+	bodyOf := func(uid int) []byte {
+		var v interface{}
+		switch uid {
+		case 0:
+			v = c03goTypes[0]()
+			protobuf.Decode(append([]byte{0x08, byte(r.Intn(100))}, append([]byte{0x12, 3}, c03bytes(r, 3)...)...), v)
+		case 1, 3:
+			v = c03goTypes[uid]()
+			protobuf.Decode(append([]byte{0x08, byte(r.Intn(100))}, append([]byte{0x12, 2}, 'h', 'i')...), v)
+		case 2:
+			v = c03goTypes[2]()
+			protobuf.Decode(append([]byte{0x09}, c03bytes(r, 8)...), v)
+		}
+		b, err := protobuf.Encode(v)
+		if err != nil {
+			return nil
+		}
+		return b
+	}
+	// is `body` undecodable for the harness type `uid`?
+	undecodable := func(uid int, body []byte) bool {
+		return protobuf.Decode(body, c03goTypes[uid]()) != nil
+	}
+	regCase := func(class string, steps [][3]int) { // step: {op, uid, _}: op 0 reg, 1 mtype, 2 rt
+		last := map[string]int{} // name -> identity registered last
+		var ops []string
+		var bad [][]byte
+		for _, sp := range steps {
+			uid := sp[1]
+			name := c03typeName(c03goTypes[uid]())
+			switch sp[0] {
+			case 0:
+				last[name] = uid
+				ops = append(ops, fmt.Sprintf("c03 reg %s %d", hexName(uid), uid))
+			case 1:
+				ops = append(ops, fmt.Sprintf("c03 mtype %s %d", hexName(uid), uid))
+			default:
+				body := bodyOf(uid)
+				if to, ok := last[name]; ok && undecodable(to, body) {
+					bad = append(bad, append(append([]byte{}, typeID(uid)...), body...))
+				}
+				ops = append(ops, fmt.Sprintf("c03 rt %s %d %s", hexName(uid), uid, h.Hex(body)))
+			}
+		}
+		emit(class, append([]string{fmt.Sprintf("c03 cfg 4096 %s %s", reg, c03joinHex(bad))}, ops...)...)
+	}
+	// corpus: the witness of the known finding — two registered types with one name
+	regCase("corpus-type-name-clash", [][3]int{{1, 0}, {0, 0}, {1, 0}, {1, 1}, {2, 0}, {0, 1}, {2, 1}, {2, 0}, {0, 2}, {2, 0}, {0, 3}, {2, 3}})
+	for i := 0; i < c.Pick(150, 2000); i++ {
+		last := map[string]int{}
+		var steps [][3]int
+		for j := 3 + r.Intn(8); j > 0; j-- {
+			uid := r.Intn(4)
+			name := c03typeName(c03goTypes[uid]())
+			switch r.Intn(3) {
+			case 0:
+				last[name] = uid
+				steps = append(steps, [3]int{0, uid})
+			case 1:
+				steps = append(steps, [3]int{1, uid})
+			default:
+				// generated cases stay clear of the known finding: a value is marshalled only when
+				// its type is the one registered last under its name, or none is
+				if to, ok := last[name]; ok && to != uid {
+					uid = to
+				}
+				steps = append(steps, [3]int{2, uid})
+			}
+		}
+		regCase("registry", steps)
+	}
+	// ---- sending to the router's own identity; types without a processor; unencodable values; nil
+	// and empty sends
+	allIDs := append(append([]network.MessageTypeID{}, c03types...), c03unencType, c03ifaceType)
+	var regAll [][]byte
+	var regOps []string
+	for i, t := range allIDs {
+		regAll = append(regAll, append([]byte{}, t[:]...))
+		regOps = append(regOps, fmt.Sprintf("c03 reg %s %d", hexName(10+i), 10+i))
+	}
+	unreg := append(bytes.Repeat([]byte{0xee}, 16), 1)
+	for i := 0; i < c.Pick(200, 2500); i++ {
+		ops := []string{fmt.Sprintf("c03 cfg 4096 %s -", c03joinHex(regAll)), "c03 unenc " + h.Hex(c03unencType[:])}
+		ops = append(ops, regOps...)
+		if r.Intn(3) == 0 {
+			var sub [][]byte
+			for _, id := range regAll {
+				if r.Intn(3) > 0 {
+					sub = append(sub, id)
+				}
+			}
+			ops = append(ops, "c03 procs "+c03joinHex(sub))
+		}
+		for j := 1 + r.Intn(3); j > 0; j-- {
+			var bufs [][]byte
+			for k := 1 + r.Intn(4); k > 0; k-- {
+				b, _ := g.valueBuf()
+				switch r.Intn(12) {
+				case 0:
+					b = unreg
+				case 1:
+					b = append([]byte{}, c03unencType[:]...)
+				}
+				bufs = append(bufs, b)
+			}
+			ops = append(ops, "c03 self "+c03joinHex(bufs))
+		}
+		emit("self-send", ops...)
+	}
+	for i := 0; i < c.Pick(150, 2000); i++ {
+		var sub, frames [][]byte
+		for _, t := range c03types {
+			if r.Intn(3) > 0 {
+				sub = append(sub, append([]byte{}, t[:]...))
+			}
+		}
+		for k := 1 + r.Intn(6); k > 0; k-- {
+			b, _ := g.valueBuf()
+			frames = append(frames, b)
+		}
+		if bad, usable := g.table(frames); !usable || len(bad) > 0 {
+			continue
+		}
+		emit("loop-noproc",
+			"c03 cfg 4096 "+reg+" -",
+			"c03 procs "+c03joinHex(sub),
+			fmt.Sprintf("c03 loop %s - %s", c03joinHex(frames), h.Ints(g.chunks(g.stream(frames, nil)))))
+	}
+	for i := 0; i < c.Pick(40, 400); i++ {
+		tr := []string{"tcp", "local"}[r.Intn(2)]
+		ops := []string{fmt.Sprintf("c03 cfg 4096 %s -", c03joinHex(regAll)), "c03 unenc " + h.Hex(c03unencType[:])}
+		for j := 2 + r.Intn(4); j > 0; j-- {
+			switch r.Intn(4) {
+			case 0:
+				ops = append(ops, "c03 send "+tr+" -")
+			case 1:
+				ops = append(ops, "c03 sendnil "+tr)
+			case 2:
+				b1, _ := g.valueBuf()
+				b2, _ := g.valueBuf()
+				ops = append(ops, "c03 send "+tr+" "+c03joinHex([][]byte{b1, append([]byte{}, c03unencType[:]...), b2}))
+			default:
+				b1, _ := g.valueBuf()
+				ops = append(ops, "c03 send "+tr+" "+h.Hex(b1))
+			}
+		}
+		emit("send-misc", ops...)
+	}
 	// ---- corpus: the witness of the partial-write defect (fixed in /repo): the write of the second
 	// frame fails two bytes into its body, the caller sends a third one
 	emit("corpus-partial-write",
